@@ -11,6 +11,7 @@ import (
 	"os"
 	"sort"
 	"strconv"
+	"strings"
 	"time"
 
 	"verif/internal/child"
@@ -26,6 +27,8 @@ type Check struct {
 	API func(r *ev.Run)
 	// APIRace selects the -race build for the API child.
 	APIRace bool
+	// RaceScope lists the files (relative to /repo) in which a race report is deciding for this property.
+	RaceScope []string
 	// APITimeout bounds the child per tier.
 	APITimeout map[string]time.Duration
 	// Drive, when set, is the black-box driver run in the parent.
@@ -33,6 +36,53 @@ type Check struct {
 }
 
 var checks = map[string]*Check{}
+
+// apiParts are in-process parts of black-box checks, run in a monitored child ("<ID>/<part>").
+var apiParts = map[string]func(r *ev.Run){}
+
+// runAPIPart runs an in-process part in a child (race build when race is set) and merges what it observed
+// into r; a crash of the child is a violation of r's property with the current case as witness.
+func runAPIPart(r *ev.Run, part string, race bool, raceScope []string, timeout time.Duration) {
+	bin := child.Self()
+	if race {
+		bin = child.RaceBin()
+	}
+	sub := ev.New(r.ID, r.Tier, r.Seed, r.Level)
+	sub.ClearProgress()
+	out := fmt.Sprintf("%s/run/%s/part-%s-%s.json", ev.Root, r.ID, part, r.Tier)
+	os.Remove(out)
+	logPath := fmt.Sprintf("%s/run/%s/part-%s-%s.log", ev.Root, r.ID, part, r.Tier)
+	res, err := child.Run(bin, []string{"apipart", r.ID, part, r.Tier, strconv.FormatInt(r.Seed, 10), out}, []string{"GORACE=halt_on_error=0"}, logPath, timeout)
+	if err != nil {
+		r.Internal("cannot run api part %s: %v", part, err)
+		return
+	}
+	if race {
+		if b, err := os.ReadFile(logPath); err == nil {
+			r.Count("race_observations_any_scope", int64(strings.Count(string(b), "WARNING: DATA RACE")))
+			for _, rr := range parseRaceLog(string(b), raceScope) {
+				r.Violation(r.ID+":race:"+rr.Key, "data race inside the property's race scope", map[string]interface{}{"part": part, "report": rr.Text})
+			}
+		}
+	}
+	// exit status 66 is the race runtime reporting that it printed reports (judged above by scope)
+	if !res.Signaled && !res.TimedOut && (res.ExitCode == 0 || (race && res.ExitCode == 66)) && r.MergePart(out) {
+		return
+	}
+	cur := sub.RestoreProgress()
+	crash := child.CrashLine(logPath)
+	if res.TimedOut && crash == "" {
+		r.Internal("api part %s exceeded its watchdog of %s without crashing (inconclusive); log %s", part, timeout, logPath)
+		return
+	}
+	key := r.ID + ":child-died:" + part
+	if crash != "" {
+		key = r.ID + ":crash:" + crashClass(crash)
+	}
+	r.Case("crash")
+	r.Violation(key, "process hosting the code under test died in part "+part+": "+crash,
+		map[string]interface{}{"exit_code": res.ExitCode, "signaled": res.Signaled, "timed_out": res.TimedOut, "current_case": cur, "crash_line": crash, "log_tail": child.Tail(logPath, 6000)})
+}
 
 func register(c *Check) { checks[c.ID] = c }
 
@@ -68,6 +118,21 @@ func main() {
 		r := ev.New(c.ID, os.Args[3], s, c.Level)
 		c.API(r)
 		os.Exit(r.Finish())
+	case "apipart":
+		// vcheck apipart <ID> <part> <tier> <seed> <outfile>
+		if len(os.Args) < 7 {
+			usage()
+		}
+		fn := apiParts[os.Args[2]+"/"+os.Args[3]]
+		if fn == nil {
+			fmt.Println("INTERNAL-ERROR unknown api part", os.Args[2], os.Args[3])
+			os.Exit(3)
+		}
+		s, _ := strconv.ParseInt(os.Args[5], 10, 64)
+		r := ev.New(os.Args[2], os.Args[4], s, "exploration")
+		fn(r)
+		r.FinishPart(os.Args[6])
+		os.Exit(0)
 	case "sut":
 		sutMain(os.Args[2:])
 	case "list":
@@ -121,7 +186,7 @@ func runAPIChild(c *Check, tier string) int {
 	probe := ev.New(c.ID, tier, seed(), c.Level)
 	probe.ClearProgress()
 	logPath := fmt.Sprintf("%s/run/%s/api-%s.log", ev.Root, c.ID, tier)
-	env := []string{"GORACE=halt_on_error=1"}
+	env := []string{"GORACE=halt_on_error=0"}
 	res, err := child.Run(bin, []string{"api", c.ID, tier, strconv.FormatInt(seed(), 10)}, env, logPath, timeout)
 	if err != nil {
 		fmt.Printf("INTERNAL-ERROR property=%s cannot run child: %v\n", c.ID, err)
@@ -130,8 +195,26 @@ func runAPIChild(c *Check, tier string) int {
 	for _, l := range child.VerdictLines(logPath) {
 		fmt.Println(l)
 	}
-	if !res.Signaled && !res.TimedOut && (res.ExitCode == 0 || res.ExitCode == 1 || res.ExitCode == 3) {
-		return res.ExitCode
+	rc := res.ExitCode
+	if c.APIRace {
+		if b, err := os.ReadFile(logPath); err == nil {
+			for _, rr := range parseRaceLog(string(b), c.RaceScope) {
+				// the child already wrote its evidence; a scoped race is reported on top of it
+				os.MkdirAll(ev.Root+"/replays", 0o755)
+				path := fmt.Sprintf("replays/%s-%s-race-%d.txt", c.ID, tier, time.Now().UnixNano())
+				os.WriteFile(ev.Root+"/"+path, []byte(rr.Text), 0o644)
+				fmt.Printf("VIOLATION property=%s replay=%s key=%s:race:%s data race inside the property's race scope\n", c.ID, path, c.ID, rr.Key)
+				if rc == 0 || rc == 66 {
+					rc = 1
+				}
+			}
+		}
+	}
+	if !res.Signaled && !res.TimedOut && (rc == 0 || rc == 1 || rc == 3) {
+		return rc
+	}
+	if rc == 66 {
+		return 0 // only out-of-scope race reports (exit status of the race runtime); the evidence was written
 	}
 	// the child died: the code under test crashed (or hung) on the current case.
 	r := ev.New(c.ID, tier, seed(), c.Level)
